@@ -165,9 +165,20 @@ def run(ctx):
             p = sc.write(c["input"].encode("latin1"), EXT.get(c["lang"], ".c"))
             cfg = sc.cfg(None, c.get("options", {}))
             jobs.append((p, cfg, c["lang"], "corpus:" + c["name"], c))
-        n = 6000 if thorough else 1400
+        # fixed universe: every language x every opener of a lexical construct left unterminated at the very end of the file
+        # (and in the middle of a line): the scanners of tokenize.cpp must stop at the end of the data
+        OPENERS = [b'R"', b'R"abc', b'u8R"x', b'LR"', b'uR"d(', b'@R"', b'@"', b'$"', b'$@"{', b'$"{x', b'"', b"'", b'L"', b"/*", b"/**",
+                   b"// x\\", b"#define X \\", b"#if", b"`", b'r"', b"q{", b'q"(', b'"""', b"<<<EOT", b"@'", b"[[", b"<:", b"x = @{", b"0x", b"1e", b"'\\"]
+        dcfg = sc.cfg(None, {})
+        for lg in sorted(EXT):
+            for op in OPENERS:
+                for body in (b"int a;\n" + op, b"int a;\nint b = " + op + b"\n", op):
+                    p = sc.write(body, EXT[lg])
+                    jobs.append((p, dcfg, lg, "open-at-eof", {"lang": lg, "opener": op.decode("latin1"), "mutation": "open-at-eof",
+                                                               "input": body.decode("latin1")}))
+        n = (6000 if thorough else 1400) + len(jobs)
         srcs = pairs[:(600 if thorough else 200)]
-        nfixed = 0 if thorough else 1200
+        nfixed = 0 if thorough else 1200 + len(jobs)
         while len(jobs) < n:
             if len(jobs) == nfixed:
                 rng_fixed_done = True
